@@ -12,8 +12,11 @@ YEARS = [1, 2, 4, 100, 400, 1582, 1583, 1899, 1900, 1901, 1969, 1970, 1999, 2000
          2024, 2026, 2100, 9998]
 TIMES = [(0, 0, 0, 0), (23, 59, 59, 999999), (12, 34, 56, 789)]
 FORMATS = ["%Y-%m-%d", "%Y-%m-%dT%H:%M:%S", "%Y-%m-%d %H:%M:%S.%f", "%d.%m.%Y", "%Y%m%d%H%M%S"]
-PATTERNS = [r"a", r"a*", r"$", r"\b", r"(?i)x|", r"(\w)(\d+)", r"[^a-z]+", r"^", r"\s", r"(a)|(b)", r".", r"line\d$"]
-STRINGS = ["abc", "aXbXc", "a b\tc", "ÄäÖ", "x1y22z333", "line1\nline2", "aaa", "B"]
+# the family includes empty-matching patterns and patterns whose first alternative / lazy match is shorter than the
+# whole string (where fullmatch, match and search genuinely differ)
+PATTERNS = [r"a", r"a*", r"$", r"\b", r"(?i)x|", r"(\w)(\d+)", r"[^a-z]+", r"^", r"\s", r"(a)|(b)", r".", r"line\d$",
+            r"a|ab", r"a*?", r"x??", r"[a-z]+?", r"(a|ab)(c|bcd)?", r"(?s).+?", r"\w+?\d"]
+STRINGS = ["abc", "aXbXc", "a b\tc", "ÄäÖ", "x1y22z333", "line1\nline2", "aaa", "B", "ab", "x", "abcd", "a1"]
 
 
 def edge_dates():
